@@ -148,7 +148,9 @@ func (r *WordRenderer) renderHeading(node *ast.Heading) (ast.WalkStatus, error) 
 		para = r.doc.AddHeadingParagraph(text, level)
 	}
 
-	// 用逐段的Run替换整体文本的Run（段落的最后一个Run），每个Run继承标题样式的字符格式
+	// 用逐段的Run替换整体文本的Run（段落的最后一个Run），每个Run继承标题样式的字号、颜色和字体。
+	// 样式的粗体、斜体不写到Run上：它们由标题样式本身提供（Word中显示不变），
+	// Run上的粗体、斜体只表示Markdown中写出的强调，这样再导出时不会多出原文没有的 ** 和 *
 	if para != nil && len(para.Runs) > 0 && len(content.Runs) > 0 {
 		last := len(para.Runs) - 1
 		base := para.Runs[last].Properties
@@ -162,16 +164,10 @@ func (r *WordRenderer) renderHeading(node *ast.Heading) (ast.WalkStatus, error) 
 	return ast.WalkSkipChildren, nil
 }
 
-// inheritRunProperties 把base中的字符格式补充到props中尚未设置的项上
+// inheritRunProperties 把base中的字号、颜色和字体补充到props中尚未设置的项上
 func inheritRunProperties(props, base *document.RunProperties) {
 	if props == nil || base == nil {
 		return
-	}
-	if props.Bold == nil && base.Bold != nil {
-		props.Bold = &document.Bold{}
-	}
-	if props.Italic == nil && base.Italic != nil {
-		props.Italic = &document.Italic{}
 	}
 	if props.FontSize == nil && base.FontSize != nil {
 		props.FontSize = &document.FontSize{Val: base.FontSize.Val}
